@@ -377,6 +377,45 @@ def run(ctx):
                  "every input of the memoised value, e.g. the stream's encoding capability (same rule as C17-R4; a snippet "
                  "with box-drawing characters replayed to an ASCII stream raises UnicodeEncodeError out of run())", reference=1)
     memo_key_rule(ctx, r, only_module="clikit.ui.components.exception_trace")
+
+    # ---------------------------------------------------------------- R11
+    r = ctx.rule("C04-R11", "EXC", "an exception raised by a handler inside a `with` block of the library reaches run()'s handler: no __exit__ of a "
+                 "context manager defined in clikit can return a truthy value (it would swallow the exception: status 0, no report)", reference=1)
+    n11 = 0
+    for ci in sorted(p.classes.values(), key=lambda c: c.qualname):
+        ex = ci.methods.get("__exit__")
+        if ex is None:
+            continue
+        n11 += 1
+        bad = None
+        for ret in q.returns(ex):
+            v = ret.value
+            if v is None or (isinstance(v, ast.Constant) and not v.value):
+                continue
+            bad = ret
+        if bad is not None:
+            r.fail(ex, bad, norm(bad), "%s.__exit__ can return a truthy value (%s): an exception raised inside the with-block - by a command handler writing under "
+                   "io.indent(), say - is suppressed, the run returns 0 and prints no error report" % (ci.name, norm(bad)))
+        else:
+            r.ok("%s.__exit__ returns nothing truthy" % ci.name)
+    if n11 == 0:
+        r.vacuous_ok = True
+
+    # ---------------------------------------------------------------- R12
+    from .c05 import scratch_rule
+
+    r = ctx.rule("C04-R12", "RESET", "'invoked with the arguments parsed for that command': what a rejected earlier run left in a parser cannot end up in this run's "
+                 "arguments - every ArgsParser.parse starts from empty scratch maps (same rule as C05-R1)", reference=2)
+    parser_base = ctx.cls("clikit.api.args.args_parser.ArgsParser")
+    for c in p.subclasses(parser_base, strict=True):
+        if "parse" in c.methods:
+            scratch_rule(ctx, r, c.methods["parse"])
+
+    # ---------------------------------------------------------------- R13 / R14
+    ctx.borrow("c12", "C12-R1", "C04-R13", "a pre-handle listener registered between two runs takes part in the next run (it may handle the event, i.e. "
+               "decide that the command handler runs zero times): every write to the listener store drops the sorted cache of that event on all paths")
+    ctx.borrow("c17", "C17-R8", "C04-R14", "'the handler is invoked exactly once' also on the second run: a handler configured as a factory stays a factory - the getter "
+               "never stores the object it created back into the configured field")
     return ctx.results
 
 
